@@ -104,7 +104,7 @@ pub struct Env<SC: StarkGenericConfig + 'static, EF> {
     foreign: Vec<(&'static str, CircuitProverData<SC>, Traces<EF>)>,
     prove: ProveFn<SC, EF>,
     verify: VerifyFn<SC>,
-    npo_mut: Option<fn(&mut Traces<EF>, Option<&str>, &mut StdRng) -> Result<String, String>>,
+    npo_mut: Option<fn(&mut Traces<EF>, Option<&str>, Option<usize>, &mut StdRng) -> Result<String, String>>,
 }
 
 const FOREIGN: [&str; 3] = ["const-value-3-to-4", "op-add-to-sub", "const-index-c3-to-c5"];
@@ -227,7 +227,8 @@ fn npo_circuit(variant: usize) -> (Circuit<KB4>, Vec<KB4>) {
     (b.build().unwrap(), pubs)
 }
 
-fn kb_npo_mut(t: &mut Traces<KB4>, target: Option<&str>, rng: &mut StdRng) -> Result<String, String> {
+/// `cell = row * 64 + j` selects the cell (j < 32: input value j; j = 32: mmcs_index_sum) - used by the C04 sweep; `None`: random.
+fn kb_npo_mut(t: &mut Traces<KB4>, target: Option<&str>, cell: Option<usize>, rng: &mut StdRng) -> Result<String, String> {
     let rec = match target {
         Some("recompose") => true,
         Some("poseidon2") => false,
@@ -236,18 +237,38 @@ fn kb_npo_mut(t: &mut Traces<KB4>, target: Option<&str>, rng: &mut StdRng) -> Re
     if rec {
         let id = NpoTypeId::recompose();
         let mut tr: RecomposeTrace<KB> = t.non_primitive_trace::<RecomposeTrace<KB>>(&id).ok_or("no recompose trace (downcast failed)")?.clone();
-        let (r, j) = (rng.random_range(0..tr.operations.len()), rng.random_range(0..4usize));
+        let (r, j) = match cell {
+            Some(c) => (c / 64, c % 64),
+            None => (rng.random_range(0..tr.operations.len()), rng.random_range(0..4usize)),
+        };
+        if r >= tr.operations.len() || j >= tr.operations[r].values.len() {
+            return Err("no such recompose cell".into());
+        }
         tr.operations[r].values[j] += KB::ONE;
         t.non_primitive_traces.insert(id, Box::new(tr));
         Ok(format!("recompose row {r} coefficient {j} += 1"))
     } else {
         let id = NpoTypeId::poseidon2_perm(Poseidon2Config::KOALA_BEAR_D4_W16);
         let mut tr: Poseidon2Trace<KB> = t.non_primitive_trace::<Poseidon2Trace<KB>>(&id).ok_or("no poseidon2 trace (downcast failed)")?.clone();
-        let r = rng.random_range(0..tr.operations.len());
-        let j = rng.random_range(0..tr.operations[r].input_values.len().min(8));
-        tr.operations[r].input_values[j] += KB::ONE;
+        let (r, j) = match cell {
+            Some(c) => (c / 64, c % 64),
+            None => {
+                let r = rng.random_range(0..tr.operations.len());
+                (r, rng.random_range(0..tr.operations[r].input_values.len().min(8)))
+            }
+        };
+        if r >= tr.operations.len() {
+            return Err("no such poseidon2 row".into());
+        }
+        if j == 32 {
+            tr.operations[r].mmcs_index_sum += KB::ONE;
+        } else if j < tr.operations[r].input_values.len() {
+            tr.operations[r].input_values[j] += KB::ONE;
+        } else {
+            return Err("no such poseidon2 cell".into());
+        }
         t.non_primitive_traces.insert(id, Box::new(tr));
-        Ok(format!("poseidon2 row {r} input value {j} += 1"))
+        Ok(format!("poseidon2 row {r} cell {j} += 1"))
     }
 }
 
@@ -602,7 +623,7 @@ where
             }
             "invalid_npo" => {
                 let m = env.npo_mut.ok_or("configuration has no non-primitive table")?;
-                what = m(&mut traces, case.target.as_deref(), rng)?;
+                what = m(&mut traces, case.target.as_deref(), case.cell, rng)?;
             }
             "foreign_circuit" => {
                 let want = case.trace.split_once(':').map(|x| x.1);
